@@ -25,7 +25,7 @@ PROP = dict(
     engines=[dict(hx="restart", timeout=1500)],
     theorems=["C20_refuted", "C20_restart_modulo_findings", "C20_restart_history_modulo_findings"],
     model_files="coq/Storage/StoreHooks.v coq/Storage/Restart.v coq/Storage/RestartEngine.v",
-    rule="16 directed histories (write faults at the broker answer to PUBREC / PUBREL / QoS 2 PUBLISH, Receive Maximum 1-2 with unacknowledged QoS 1/2 bursts connected and offline, Clean Start 1 over a live / offline persistent session with unacknowledged QoS 1 and 2 outbound messages, colliding subscription keys with/without unsubscribe, take-over of a session-expiry-0 "
+    rule="18 directed histories (several records per type with alternating fully populated and bare records: sessions, subscriptions with options, in-flight and retained messages; SUBSCRIBE with invalid and ACL-refused filters for MQTT 3.1 / 3.1.1 / 5 sessions, write faults at the broker answer to PUBREC / PUBREL / QoS 2 PUBLISH, Receive Maximum 1-2 with unacknowledged QoS 1/2 bursts connected and offline, Clean Start 1 over a live / offline persistent session with unacknowledged QoS 1 and 2 outbound messages, colliding subscription keys with/without unsubscribe, take-over of a session-expiry-0 "
          "connection, UNSUBSCRIBE with a packet id in use, outbound QoS 2 after PUBREC, time-expired session then new "
          "session, session expiry changed by DISCONNECT / delayed will, retained set-replace-clear-expire) on all four "
          "back ends + random histories of 6..35 client operations (connect v3/v4/v5 with clean/expiry/will variants, "
